@@ -351,6 +351,30 @@ def check_case(ctx, case):
     ctx.extra["points_evaluated"] += done
     if done == 0:
         raise Discard("all points fragile")
+    if case.get("again"):
+        # the same Model object after an in-place change: constants replaced by their values leave the model,
+        # every remaining variable keeps its attributes, and both views must show the model as it is now
+        n_const = len(model.constants)
+        f2 = None
+        try:
+            guarded(model.simplify, {"replace_constant_values": True}, where="simplify")
+            f2 = guarded(lambda: model.variable_metadata_function, where="variable_metadata_function_again")
+        except Violation as v:
+            v.msg += "\n" + text
+            raise
+        except Discard:
+            labels.add("again:simplify_not_implemented_for_this_model")  # the first phase still counts
+        if f2 is not None:
+            labels.add("again:constants_replaced" if n_const else "again:nothing_to_replace")
+        for point in (case["points"][:2] if f2 is not None else []):
+            env = make_env(m, point)
+            try:
+                check_point(model, m, byname, env, f2, text + "\n(after simplify({'replace_constant_values': True}) on the same Model object)")
+            except X.Fragile:
+                continue
+            except Violation as v:
+                v.kind = "after_simplify:" + v.kind
+                raise
     return dict(nontrivial=nontrivial, labels=sorted(labels), sample={"text": text, "points": case["points"]})
 
 
@@ -688,7 +712,7 @@ def case_strategy(draw, ctx=None):
                     val = [1.0 - float(declared[v["name"]])]
             pt[v["name"]] = val if v["dims"] else val[0]
         points.append(pt)
-    return {"model": m, "points": points}
+    return {"model": m, "points": points, "again": draw(st.integers(0, 2)) == 0}
 
 
 def shard(ctx):
